@@ -2,7 +2,7 @@
 # Replay for suspected defect c06_write_error (echsd checkpoint ignores
 # write(2) errors and renames the truncated temp file over the live queue).
 #
-# Usage: ./run.sh            (needs root: uses unshare -m -n for isolation)
+# Usage: ./run.sh            (needs root: uses unshare -m -n -p for isolation)
 #
 # echsd has no option for the spool directory or the socket: as root it
 # always uses /var/spool/echse and the abstract socket "\0/var/run/echse/=echsd".
@@ -25,7 +25,7 @@ if [ "$1" != "--inner" ]; then
 	gcc -shared -fPIC -O1 -o "$T/enospc.so" "$HERE/enospc_shim.c" -ldl || exit 1
 	rc=0
 	for phase in A B; do
-		timeout 50 unshare -m -n "$0" --inner "$T" $phase || rc=1
+		timeout 50 unshare -m -n -p -f --kill-child --mount-proc "$0" --inner "$T" $phase || rc=1
 	done
 	exit $rc
 fi
